@@ -284,6 +284,12 @@ def getItem (v : PyVal) (k : Str) : Except Err PyVal :=
     | none => .error .keyError
   | _ => .error .typeError
 
+/-- `x.get(k, d)` on something that must be a dict -/
+def dictGetD (v : PyVal) (k : Str) (d : PyVal) : Except Err PyVal :=
+  match v with
+  | .dict kvs => .ok ((lookup kvs k).getD d)
+  | _ => .error .attributeError
+
 def treeItem (basepath : Str) (item : PyVal) : Except Err PyVal :=
   match getItem item (lit "file") with
   | .error e => .error e
